@@ -19,6 +19,26 @@ CLAIMED = {
         "through their order type. Segment.middle is tied but not part of any theorem.",
         "Coq proof (lia over Z) + model/implementation correspondence evaluated in Coq",
         "DESIGN.md 4/C03"),
+    "C01": (
+        "20 Coq theorems (coq/Properties/C01.v): the model keeps the three containers of timeline.py separately; "
+        "C01_history_refines_set proves by induction over arbitrary operation lists (any number of registers, reads "
+        "interleaved anywhere) that every reachable object is in step (set = sorted list, boundaries = sorted multiset "
+        "of all bounds, members non-empty) and holds exactly the mathematical set obtained by replaying the history; "
+        "the read theorems derive iteration order, len, bool, in, t[k], index, ==, !=, timeline-in-timeline and extent "
+        "from that set. Tied to /repo by operation histories with full read-backs checked in Coq.",
+        "Trusted: Coq kernel + vm_compute; model coq/Model/Timeline.v part 1 (Python set modelled as its canonical "
+        "sorted duplicate-free list; SortedList.add/remove as bisect-right insert / first-occurrence removal); harness. "
+        "Timeline.__init__ is exercised with lists and generators of segments only; uri is not constrained by C01.",
+        "Coq proof (invariant + refinement to a mathematical set, induction over histories) + history correspondence evaluated in Coq",
+        "DESIGN.md 4/C01"),
+    "C18": (
+        "6 Coq theorems (coq/Properties/C18.v): for every strictly sorted timeline and every t, overlapping(t) is the "
+        "order-preserving filter by start <= t <= end (also stated for every reachable Timeline object of C01); the "
+        "pre-repair query is characterised exactly (it lost precisely the members starting at t) and refuted by a "
+        "vm_compute witness (finding F9, fixed in /repo). Tied to /repo on all small timelines x every tick.",
+        "Trusted: Coq kernel + vm_compute; model of overlapping_iter in coq/Model/Timeline.v (the repaired scan); harness.",
+        "Coq proof (list induction) + exhaustive small-scope correspondence evaluated in Coq",
+        "DESIGN.md 4/C18"),
 }
 
 NOT_YET = "check not built yet in this round (planned: see DESIGN.md section 8)"
